@@ -72,6 +72,33 @@ pub fn generate(ctx: &mut Ctx) {
             }
         }
     }
+    // long paths: every op, and every pair of ops, on paths beyond the inline buffers
+    if !ctx.tiny() {
+        let unit = "abcdefghijklmnopqrstuvwxyz0123456789";
+        let long_seg = unit.repeat(16); // 576 bytes
+        let many: String = (0..40).map(|i| format!("s{}/", i)).collect();
+        let bodies: Vec<String> = vec![
+            format!("./{}", long_seg), format!("./{}/x", long_seg), format!("../{}", long_seg), format!("{}/.", long_seg), format!("{}/..", long_seg), format!("{}/../y", long_seg),
+            format!("{}/{}", long_seg, long_seg), format!("./{}x", many), format!("{}.", many), format!("{}..", many), format!("{}../..", many), format!("x/../{}", many), format!("{}{}", many, long_seg),
+            format!("a:b/{}", long_seg), format!("./a:b/{}", long_seg), format!("{}/a:b", long_seg), format!("/{}", long_seg), format!("/./{}", long_seg), format!("//{}", long_seg), format!("/{}.", many),
+        ];
+        for body in &bodies {
+            for pre in ["", "s:", "//h", "s://h"] {
+                let init = format!("{}{}{}", pre, if pre.ends_with('h') && !body.starts_with('/') { "/" } else { "" }, body);
+                let (iri_ok, _) = crate::fam::valid_in(Prod::RiRef, &init);
+                if !iri_ok { continue; }
+                if ctx.mine(bi) {
+                    for a in OPS {
+                        ctx.run(Case::new("hist").arg(&init).arg(*a));
+                        for b2 in ["norm", "pop", "push:a", "spush:..", "clear"] {
+                            ctx.run(Case::new("hist").arg(&init).arg(format!("{}\n{}", a, b2)));
+                        }
+                    }
+                }
+                bi += 1;
+            }
+        }
+    }
     let n = ctx.random_budget(320, 120_000, 1_500_000);
     for i in 0..n {
         let mut rng = ctx.rng("hist", i);
